@@ -67,10 +67,11 @@ def generate(rng, tier, run, seed=0):
         # keep every kind represented, then a seeded sample
         by_kind = {}
         for f in fl:
-            by_kind.setdefault(f['kind'], []).append(f)
+            # (syntax notes: one stratum per note type, so that every kind of note is exercised)
+            by_kind.setdefault(f['kind'] + (':' + f['note'][0] if f.get('note') else ''), []).append(f)
         pick = []
         for k in sorted(by_kind):
-            rare = [f for f in by_kind[k] if f.get('ctx') in ('parent-repeats', 'opener-then-repeat', 'non-adjacent', 'gap')]
+            rare = [f for f in by_kind[k] if f.get('ctx') in ('parent-repeats', 'opener-then-repeat', 'non-adjacent', 'gap', 'trailing-cut')]
             pick.append(rng.choice(rare if rare and rng.random() < 0.7 else by_kind[k]))
         rest = [f for f in fl if f not in pick]
         rng.shuffle(rest)
